@@ -53,4 +53,9 @@ CHECKS['C04'] = dict(
     note='Well-formedness of codecs of arbitrary user structs is not proved generically (checked for the shipped table and exercised on user shapes). Trusted: Coq kernel, vm_compute, extraction, driver, harness, table translator.',
     technique='Coq proof (induction over field lists, little-endian byte lemmas, zero-padding algebra) + extracted-model differential')
 
+CHECKS['C08'] = dict(
+    text='Kernel-checked: every frame the reader model returns was parsed from exactly the layout bytes of a well-formed frame (inversion of the parser on byte streams); without a dialect, writing it back emits exactly the consumed bytes, so the next hop reads the very same frame (any number of hops, keyed or not); with a dialect of well-formed codecs (well-formedness of every shipped message is a vm_compute obligation on the regenerated table) the forwarded bytes are read at the next hop as exactly the frame delivered at this hop, whatever the received payload encoding (uses: decoded values are canonical, re-encoding cannot fail); FixFrame leaves the checksum and, for a v2 frame with an outgoing key, the signature the next hop computes. Tied to frame.Reader/Writer and Node.FixFrame by 3-hop differential runs over canonical and non-canonical encodings.',
+    note='FixFrame does not set the signed flag on a frame that arrived unsigned: signature validation at a keyed next hop is checked for frames carrying the flag. Trusted: Coq kernel, vm_compute, extraction, driver, harness, table translator.',
+    technique='Coq proof (parser inversion, codec idempotence, composition with C01/C04 theorems) + extracted-model differential over multi-hop forwarding')
+
 NOT_APPLICABLE = [{'property_id': p, 'reason': PENDING} for p in ALL if p not in CHECKS]
